@@ -450,6 +450,28 @@ pub struct Observed {
     pub locks_after: Vec<String>,
 }
 
+/// Cases that were started and never came back (the common harness abandons a worker thread that misses
+/// the deadline; it keeps spinning). After `MAX_HUNG` of them the remaining transactions are not run any
+/// more: the violation is established and every further hang would cost another deadline and another core.
+static STARTED: AtomicU64 = AtomicU64::new(0);
+static FINISHED: AtomicU64 = AtomicU64::new(0);
+const MAX_HUNG: u64 = 4;
+struct InFlight;
+impl InFlight {
+    fn enter() -> Option<InFlight> {
+        if STARTED.load(Ordering::SeqCst) - FINISHED.load(Ordering::SeqCst) >= MAX_HUNG {
+            return None;
+        }
+        STARTED.fetch_add(1, Ordering::SeqCst);
+        Some(InFlight)
+    }
+}
+impl Drop for InFlight {
+    fn drop(&mut self) {
+        FINISHED.fetch_add(1, Ordering::SeqCst); // also on unwind: a panic is not a hang
+    }
+}
+
 /// Runs the transaction against the real code in a fresh directory. `None`: malformed case.
 pub fn run_txn(t: &Txn) -> Option<Observed> {
     let edits: Vec<RefEdit> = t.edits.iter().map(|e| edit_of(e)).collect::<Option<_>>()?;
@@ -541,10 +563,16 @@ fn backoff_schedule(ms: u64) -> Vec<u64> {
 
 fn imp(c: &Case) -> String {
     match f_str(c, 0) {
-        b"txn" => match parse_txn(c).and_then(|t| run_txn(&t)) {
-            Some(o) => transcript(&o),
-            None => "malformed".into(),
-        },
+        b"txn" => {
+            let _in_flight = match InFlight::enter() {
+                Some(g) => g,
+                None => return "HANG-SKIPPED (earlier cases never returned)".into(),
+            };
+            match parse_txn(c).and_then(|t| run_txn(&t)) {
+                Some(o) => transcript(&o),
+                None => "malformed".into(),
+            }
+        }
         b"backoff" => {
             let ms = f_u64(c, 1);
             if ms > 100_000 {
@@ -626,6 +654,10 @@ fn prop(c: &Case) -> Verdict {
     }) {
         return Verdict::ok(false, "documented-invalid-delete");
     }
+    let _in_flight = match InFlight::enter() {
+        Some(g) => g,
+        None => return Verdict::ok(false, "skipped-after-hangs"),
+    };
     let started = std::time::Instant::now();
     let o = match run_txn(&t) {
         Some(o) => o,
@@ -677,7 +709,9 @@ fn prop(c: &Case) -> Verdict {
                 }
                 return Verdict::ok(true, "packed-lock-failure");
             }
-            Verdict::ok(contended, format!("err-{e}"))
+            // the split loop giving up after five rounds (cycles, long chains) or refusing duplicates is one of
+            // the loops the property is about
+            Verdict::ok(contended || e == "PreprocessingFailed", format!("err-{e}"))
         }
         Ok(_) => {
             // exclusion: whatever changed on disk was not locked by the other party
@@ -717,6 +751,6 @@ fn main() {
         imp,
         prop,
         git: None,
-        deadline: Duration::from_secs(20),
+        deadline: Duration::from_secs(6),
     });
 }
